@@ -820,6 +820,65 @@ def foreign_folded():
     return [(h.relpath, h.owner, n) for n, h in NEW_UNIQUE.items() if getattr(h, "used", 0) > 0]
 
 
+def inline_new_properties(tree, ref_mod, all_known):
+    """a read-only property that is new to the program, whose getter is a single `return <expr>` over self, and that has no
+    setter: `x.p` means `<expr>[self := x]` wherever it is read in this module (x a name or attribute chain)"""
+    props = {}
+    for c in tree.body:
+        if not isinstance(c, ast.ClassDef):
+            continue
+        for m in c.body:
+            if isinstance(m, ast.FunctionDef) and len(m.decorator_list) == 1 and dotted_name(m.decorator_list[0]) == "property" and \
+                    (c.name + "." + m.name) not in ref_mod and m.name not in all_known and m.name not in _BUILTIN_ATTRS:
+                body = _strip_doc(m.body)
+                if len(body) == 1 and isinstance(body[0], ast.Return) and body[0].value is not None and len(m.args.args) == 1 and _pure(body[0].value):
+                    if m.name in props:
+                        props[m.name] = None
+                    else:
+                        props[m.name] = (c, m, body[0].value)
+    # a name that is also stored as an attribute anywhere here is not just this property
+    stored = {n.attr for n in ast.walk(tree) if isinstance(n, ast.Attribute) and isinstance(n.ctx, (ast.Store, ast.Del))}
+    others = {f.name for c in tree.body if isinstance(c, ast.ClassDef) for f in c.body if isinstance(f, ast.FunctionDef)}
+    props = {k: v for k, v in props.items() if v is not None and k not in stored and
+             sum(1 for c in tree.body if isinstance(c, ast.ClassDef) for f in c.body if isinstance(f, ast.FunctionDef) and f.name == k) == 1}
+    if not props:
+        return 0
+    hits = [0]
+
+    class R(ast.NodeTransformer):
+        def visit_Attribute(self, n):
+            self.generic_visit(n)
+            if isinstance(n.ctx, ast.Load) and n.attr in props and _attr_chain(n.value):
+                c, m, e = props[n.attr]
+                hits[0] += 1
+                return ast.copy_location(_Subst({m.args.args[0].arg: n.value}, {}).visit(clone(e)), n)
+            return n
+    for c in tree.body:
+        if isinstance(c, ast.ClassDef):
+            for i, f in enumerate(c.body):
+                if isinstance(f, ast.FunctionDef) and not (f.name in props and props[f.name][1] is f):
+                    c.body[i] = R().visit(f)
+        elif isinstance(c, ast.FunctionDef):
+            tree.body[tree.body.index(c)] = R().visit(c)
+    if hits[0]:
+        for k, (c, m, e) in props.items():
+            if not any(isinstance(n, ast.Attribute) and n.attr == k for n in ast.walk(tree) if n is not m):
+                c.body = [x for x in c.body if x is not m] or [ast.Pass()]
+        ast.fix_missing_locations(tree)
+    return hits[0]
+
+
+def dotted_name(e):
+    parts = []
+    while isinstance(e, ast.Attribute):
+        parts.append(e.attr)
+        e = e.value
+    if isinstance(e, ast.Name):
+        parts.append(e.id)
+        return ".".join(reversed(parts))
+    return None
+
+
 def inline_new_helpers(tree, ref_mod, known_names):
     """ref_mod: {qualname: ...} of this module in the reference; known_names: every function/method name in the reference"""
     helpers = {}
@@ -1113,7 +1172,7 @@ def substitute_new_temps(fn, ref_locals):
             t = tgt
             if isinstance(t, ast.UnaryOp) and isinstance(t.op, ast.Not):
                 t = t.operand
-            if t is loads[0] and not isinstance(nxt, ast.While):
+            if (t is loads[0] or _first_effect_is(tgt, loads[0])) and not isinstance(nxt, ast.While):
                 _replace_loads(nxt, v, e, roots=[nxt])
                 del block[idx]
                 done.append(v)
@@ -1285,6 +1344,47 @@ def _rename_local(fn, old, new):
     for n in _own(fn):
         if isinstance(n, ast.Name) and n.id == old:
             n.id = new
+
+
+def _first_effect_is(expr, load):
+    """in expr, is `load` evaluated before anything that has an effect or could be affected by a call put in its place?
+    True for `obj.stable.method(load, ..)`, `f(load)`, `a + load` with a a plain name: what precedes the load are plain names,
+    constants and constructor-only attributes of self"""
+    if expr is None:
+        return False
+    order = []
+
+    def rec(n):
+        if n is load:
+            order.append("LOAD")
+            return
+        if isinstance(n, ast.Call):
+            if isinstance(n.func, ast.Attribute):
+                rec(n.func.value)
+            elif not isinstance(n.func, ast.Name):
+                rec(n.func)
+            for a in n.args:
+                rec(a.value if isinstance(a, ast.Starred) else a)
+            for k in n.keywords:
+                rec(k.value)
+            order.append("call")
+            return
+        if isinstance(n, (ast.Name, ast.Constant)):
+            order.append("pure")
+            return
+        if isinstance(n, ast.Attribute):
+            order.append("pure" if _stable_expr(n) else "attr")
+            return
+        if isinstance(n, (ast.BinOp, ast.Compare, ast.Tuple, ast.UnaryOp)):
+            for c in ast.iter_child_nodes(n):
+                if isinstance(c, ast.expr):
+                    rec(c)
+            return
+        order.append("other")
+    rec(expr)
+    if "LOAD" not in order:
+        return False
+    return all(x == "pure" for x in order[:order.index("LOAD")])
 
 
 def _find_assign(body, store):
